@@ -185,7 +185,10 @@ def run_contract_all(case):
 
         inputs = [tuple(t.inds) for t in tn]
         sd = {ix: tn.ind_size(ix) for ix in tn.ind_map}
-        kw["optimize"] = ctg.ContractionTree.from_path(inputs, want, sd, path=random_path(n, case["pseed"]))
+        # the tree is an object the user built earlier: for odd pseed with the outputs in another order than the one now
+        # requested (the requested order is the one promised for the result)
+        tree_out = tuple(want) if case["pseed"] % 2 == 0 else tuple(sorted(want, reverse=True))
+        kw["optimize"] = ctg.ContractionTree.from_path(inputs, tree_out, sd, path=random_path(n, case["pseed"]))
     elif opt != "default":
         kw["optimize"] = opt
     if out is not None:
